@@ -13,7 +13,8 @@ package main
 //      in-place operations)                                -> conc (same results,
 //      shared inputs untouched?).  The same program built with -race and run by
 //      bin/plugins/C20.py reports data races.
-// Line: 20 routine nargs mutated[nargs] det conc callIndex seedLow32 size
+// Line: 20 routine nargs mutated[nargs] det conc panics callIndex seedLow32 size
+// (booleans are printed as 0/1 and the comparator accepts nothing else)
 
 import (
 	"bytes"
@@ -23,11 +24,13 @@ import (
 	"math/rand"
 	"os"
 	"os/exec"
+	"reflect"
 	"runtime"
 	"sort"
 	"strconv"
 	"strings"
 	"sync"
+	"sync/atomic"
 
 	"github.com/aclements/go-moremath/fit"
 	"github.com/aclements/go-moremath/graph"
@@ -44,9 +47,33 @@ type c20Case struct {
 	Seed int64  `json:"seed"`
 	Size int    `json:"size"`
 	Cap  int    `json:"cap"` // spare capacity of the argument windows: 0 mixed per array, 1 all tight, 2 all generous
+	Sp   int    `json:"sp,omitempty"` // 1: the float data contain NaN, +Inf, -Inf, -0, the largest and the smallest positive double; 2: the same without NaN
+}
+
+// which special-values flavour an entry is run with (in addition to its ordinary cases).
+// OPEN OBSERVATIONS on the unchanged tree (reported, outside C20's quantifier "random inputs that are
+// unsorted and contain ties"): stats.MannWhitneyUTest never returns when a sample contains a NaN
+// (utest.go tie loop: merged[i] == v1 is false for NaN, i never advances); KDE.Bounds/PDF/CDF do not
+// return for NaN, +-Inf or +-MaxFloat64 data (bracket expansion / reflection series never terminate).
+// Those entries are therefore not run on such data - every other entry is.
+func c20SpecialFor(name string) int {
+	switch {
+	case strings.Contains(name, "KDE"):
+		return 0
+	case name == "stats.MannWhitneyUTest":
+		return 2
+	case name == "stats.Sample.Sort":
+		// "the in-place operation must change something" is demanded: with a NaN the weighted sort's
+		// plain < comparison may leave an unsorted sample as it is
+		return 2
+	}
+	return 1
 }
 
 var c20CapMode int
+var c20Special int
+
+var c20SpecialVals = []float64{math.NaN(), math.Inf(1), math.Inf(-1), math.Copysign(0, -1), math.MaxFloat64, 5e-324, math.Float64frombits(0x7ff8000000000123)}
 
 // an instantiated call
 type c20Inst struct {
@@ -254,6 +281,21 @@ func c20Data(rng *rand.Rand, n int) []float64 {
 	// make sure it is not sorted (n >= 3)
 	if n >= 2 && sort.Float64sAreSorted(xs) {
 		xs[0], xs[n-1] = xs[n-1]+1, xs[0]-1
+	}
+	if c20Special != 0 && n >= 3 { // special values at random places (sorting with NaN, -0 == 0 ties, overflow)
+		for k := 0; k < 1+n/8; k++ {
+			v := c20SpecialVals[rng.Intn(len(c20SpecialVals))]
+			if c20Special == 2 && v != v {
+				v = math.Inf(1)
+			}
+			xs[rng.Intn(n)] = v
+		}
+		if sort.Float64sAreSorted(xs) { // still not sorted (NaNs sort first)
+			xs[0], xs[n-1] = xs[n-1], xs[0]
+			if sort.Float64sAreSorted(xs) {
+				xs[0], xs[n-1] = 3, 2
+			}
+		}
 	}
 	return houseF(rng, xs)
 }
@@ -490,17 +532,31 @@ func init() {
 				}
 			}
 			var edges []graph.Edge
+			kept := map[int]bool{}
+			for _, v := range nodes {
+				kept[v] = true
+			}
 			for i := n - 1; i >= 0; i-- {
 				for e := len(g[i]) - 1; e >= 0; e-- {
-					if rng.Intn(3) == 0 {
+					// SubgraphKeep's edges must join kept nodes (anything else is outside its domain: it panics
+					// or silently attaches the edge to node 0)
+					if rng.Intn(3) == 0 && (!keep || (kept[i] && kept[g[i][e]])) {
 						edges = append(edges, graph.Edge{Node: i, Edge: e})
 					}
 				}
 			}
 			nodes = houseI(rng, nodes)
+			// the edge list is a guarded window as well (whole backing array in the snapshot)
+			espare := c20Spare(rng, len(edges))
+			eback := make([]graph.Edge, c20Guard+len(edges)+espare+c20Guard)
+			for i := range eback {
+				eback[i] = graph.Edge{Node: c20SentI, Edge: c20SentI}
+			}
+			copy(eback[c20Guard:], edges)
+			edges = eback[c20Guard : c20Guard+len(edges) : c20Guard+len(edges)+espare]
 			snapE := func() []uint64 {
-				var r []uint64
-				for _, e := range edges {
+				r := []uint64{uint64(len(edges))}
+				for _, e := range eback {
 					r = append(r, uint64(e.Node), uint64(e.Edge))
 				}
 				return r
@@ -662,6 +718,12 @@ func init() {
 	two("vec.Concat/prefix-slices", func(xs, ys []float64, rng *rand.Rand) func() []uint64 {
 		// first argument is a short prefix of a longer array: plenty of spare capacity behind it
 		k, m := 1+rng.Intn(2), 1+rng.Intn(2)
+		if k > len(xs) { // size 1: the prefix cannot be longer than the slice (xs[:2] would panic in the HARNESS)
+			k = len(xs)
+		}
+		if m > len(ys) {
+			m = len(ys)
+		}
 		return func() []uint64 {
 			c := vec.Concat(xs[:k], ys[:m], ys[len(ys)-1:])
 			r := fb(c)
@@ -693,7 +755,8 @@ func init() {
 		return func() []uint64 { return append(fb(vec.Linspace(-1, 3, n)), fb(vec.Logspace(0, 3, n, 10))...) }
 	})
 	add(c20Call{"stats.UDist.{PMF,CDF}", 11, 2, func(rng *rand.Rand, n int) func() *c20Inst {
-		t := houseI(rng, []int{2, 1, 3, 1, 2})
+		// tie vectors that are NOT palindromes: the in-place reversal of the history step changes them
+		t := houseI(rng, [][]int{{1, 2, 3, 1, 2}, {3, 1, 2, 2, 1}, {2, 2, 1, 1, 3}, {1, 1, 1, 2, 4}}[rng.Intn(4)])
 		d := stats.UDist{N1: 4, N2: 5, T: t}
 		u := float64(rng.Intn(41)) / 2
 		none := []float64(nil)
@@ -708,10 +771,18 @@ func init() {
 			h.bins = append(h.bins, uint(rng.Intn(5)))
 		}
 		h.bins = append(h.bins, 3)
+		// the counts the library obtains through Counts() are a guarded window too
+		bspare := c20Spare(rng, len(h.bins))
+		bback := make([]uint, c20Guard+len(h.bins)+bspare+c20Guard)
+		for i := range bback {
+			bback[i] = 777777
+		}
+		copy(bback[c20Guard:], h.bins)
+		h.bins = bback[c20Guard : c20Guard+len(h.bins) : c20Guard+len(h.bins)+bspare]
 		q := 0.2 + 0.6*rng.Float64()
 		snapB := func() []uint64 {
-			r := []uint64{uint64(h.under), uint64(h.over)}
-			for _, b := range h.bins {
+			r := []uint64{uint64(h.under), uint64(h.over), uint64(len(h.bins))}
+			for _, b := range bback {
 				r = append(r, uint64(b))
 			}
 			return r
@@ -799,7 +870,18 @@ func init() {
 			}
 			return func() *c20Inst { // own KDE struct per instance (the Bandwidth cell is the in-place target), shared sample
 				k := &stats.KDE{Sample: stats.Sample{Xs: xs, Weights: ws}, Kernel: kern, Bandwidth: bw0, BoundaryMin: bmin, BoundaryMax: bmax}
-				return &c20Inst{[]func() []uint64{snapF(&xs), snapF(&ws), func() []uint64 { return []uint64{math.Float64bits(k.Bandwidth)} }}, func() []uint64 {
+				sx := snapF(&xs)
+				// argument 0 = the sample's Xs AND every field of the KDE other than Bandwidth and Weights (Kernel,
+				// BoundaryMin/Max, BoundaryMethod, Sample.Sorted, the slice headers): only the Bandwidth cell may change
+				snap0 := func() []uint64 {
+					kk := *k
+					kk.Bandwidth, kk.Sample.Xs, kk.Sample.Weights = 0, nil, nil
+					o := sx()
+					deepU(reflect.ValueOf(kk), true, &o, 0)
+					o = append(o, uint64(len(k.Sample.Xs)), uint64(cap(k.Sample.Xs)), uint64(len(k.Sample.Weights)), uint64(cap(k.Sample.Weights)))
+					return o
+				}
+				return &c20Inst{[]func() []uint64{snap0, snapF(&ws), func() []uint64 { return []uint64{math.Float64bits(k.Bandwidth)} }}, func() []uint64 {
 					lo, hi := k.Bounds()
 					return []uint64{math.Float64bits(k.PDF(x)), math.Float64bits(k.CDF(x)), math.Float64bits(lo), math.Float64bits(hi)}
 				}}
@@ -970,6 +1052,11 @@ func c20Find(name string) (int, *c20Call) {
 			return i, &c20Table[i]
 		}
 	}
+	for i := range c20Canaries {
+		if c20Canaries[i].name == name {
+			return len(c20Table) + i, &c20Canaries[i]
+		}
+	}
 	return -1, nil
 }
 
@@ -1010,11 +1097,26 @@ const c20Threads = 16
 func c20Call1(inst *c20Inst) (r []uint64) {
 	defer func() {
 		if e := recover(); e != nil {
+			atomic.AddInt64(&c20PanicCount, 1)
 			r = []uint64{0xbad0bad0, errBits(fmt.Errorf("%v", e))}
 		}
 	}()
 	return inst.call()
 }
+
+// number of library calls that ended in a panic (hand-written entries: the whole call; reflective
+// entries: each method call).  A call that panics has compared nothing: the count observed during
+// the FIRST sequential call of a case is part of the line and the comparator rejects a non-zero
+// count (position 5) - on the unchanged tree no entry panics.
+var c20PanicCount int64
+
+// a result that cannot be canonicalised (a closure of a shape the harness cannot evaluate, a
+// channel): the case is refused (harness failure), never passed unexamined
+var c20Uncomparable atomic.Value
+
+// number of cases this process has run before/including the current one, not counting the
+// reference runs of a fresh child process (C20_FRESH): read by the process-history canary
+var c20RunsInProcess int64
 
 // API names exercised by the hand-written entries above (the reflect:* entries add, at run
 // time, every method they call)
@@ -1032,6 +1134,8 @@ var c20StaticCovered = []string{
 	"stats.InvCDF", "stats.Rand", "stats.KDE.PDF", "stats.KDE.CDF", "stats.KDE.Bounds",
 	"stats.Sample.Sort", "graphalg.Reverse", "graphalg.NodeMarks.Mark", "graphalg.NodeMarks.Unmark",
 	"stats.LinearHist.Add", "stats.LogHist.Add",
+	"stats.TwoSampleTTest", "stats.TwoSampleWelchTTest", "stats.OneSampleTTest", "stats.BandwidthScott", "stats.BandwidthSilverman",
+	"vec.Vectorize",
 }
 
 // API functions that cannot be called from inside the harness, with the reason (reported in
@@ -1100,7 +1204,7 @@ func c20RunWarmup() (*Line, error) {
 		}
 	}
 	l := &Line{}
-	l.I(20).I(30).I(0).B(true).B(ok).I(len(c20Table)).Int(0).I(3)
+	l.I(20).I(30).I(0).B(true).B(ok).I(0).I(len(c20Table)).Int(0).I(3)
 	return l, nil
 }
 
@@ -1111,6 +1215,17 @@ func c20RunAPI(c c20Case) (*Line, error) {
 	api, unc, err := c20Uncovered()
 	if err != nil {
 		return nil, fmt.Errorf("API scan failed: %v", err)
+	}
+	// the scan must SEE what the table calls: a scan that has gone blind (wrong directory, a parse
+	// that silently yields nothing) would otherwise report "nothing uncovered"
+	inAPI := map[string]bool{}
+	for _, a := range api {
+		inAPI[a.Name] = true
+	}
+	for _, n := range c20StaticCovered {
+		if !inAPI[n] {
+			return nil, fmt.Errorf("API scan is blind: it does not find %s, which the table calls (%d functions found)", n, len(api))
+		}
 	}
 	ok := true
 	if strings.HasPrefix(c.Call, "@unlisted:") {
@@ -1123,7 +1238,7 @@ func c20RunAPI(c c20Case) (*Line, error) {
 		}
 	}
 	l := &Line{}
-	l.I(20).I(30).I(0).B(ok).B(true).I(len(api)).Int(0).I(len(unc))
+	l.I(20).I(30).I(0).B(ok).B(true).I(0).I(len(api)).Int(0).I(len(unc))
 	return l, nil
 }
 
@@ -1143,11 +1258,19 @@ func c20Run(raw []byte) (*Line, error) {
 		return nil, fmt.Errorf("bad size")
 	}
 	mk := func() func() *c20Inst { return call.build(rand.New(rand.NewSource(c.Seed)), c.Size) }
+	if os.Getenv("C20_FRESH") == "" {
+		atomic.AddInt64(&c20RunsInProcess, 1)
+	}
+	c20Uncomparable.Store("")
 	// 1. mutation
 	if c.Cap < 0 || c.Cap > 2 {
 		return nil, fmt.Errorf("bad cap mode")
 	}
 	c20CapMode = c.Cap
+	if c.Sp < 0 || c.Sp > 2 {
+		return nil, fmt.Errorf("bad sp")
+	}
+	c20Special = c.Sp
 	c20Floats, c20Scramble = nil, nil
 	c20BackF, c20BackI = map[*float64][]float64{}, map[*int][]int{}
 	inst := mk()()
@@ -1182,7 +1305,10 @@ func c20Run(raw []byte) (*Line, error) {
 			sc()
 		}
 	}
+	atomic.StoreInt64(&c20PanicCount, 0)
+	atomic.StoreInt32(&c20CanaryFirstCall, 1)
 	r1 := c20Call1(inst)
+	panics := atomic.LoadInt64(&c20PanicCount)
 	if os.Getenv("C20_FRESH") != "" {
 		// reference mode: this process has made no other call; report only a hash of the result
 		l := &Line{}
@@ -1195,16 +1321,18 @@ func c20Run(raw []byte) (*Line, error) {
 	}
 	// 2. history: unrelated calls, then the same call on freshly built equal arguments
 	hr := rand.New(rand.NewSource(c.Seed ^ 0x5eed))
+	c20Special = 0 // the unrelated calls run on ordinary data
 	for k := 0; k < 4; k++ {
 		o := &c20Table[hr.Intn(len(c20Table))]
 		c20Call1(o.build(rand.New(rand.NewSource(hr.Int63())), 3+hr.Intn(20))())
 	}
+	c20Special = c.Sp
 	det := eqU(r1, c20Call1(mk()()))
 	// ... also when the SAME buffers hold different data at a later call (a cache keyed by slice
 	// identity would go stale): overwrite the argument arrays in place with other values v2 and
 	// call again; the result must equal, bit for bit, that of a call on NEWLY ALLOCATED arrays
 	// holding v2 which the library has never seen; then restore the contents and call once more
-	if det && call.routine < 20 {
+	if det && (call.routine < 20 || call.routine == c20CanaryNondet) {
 		c20Call1(inst) // the library has just seen these arrays with the old contents
 		var restore []func()
 		for _, sc := range scramblers {
@@ -1309,11 +1437,19 @@ func c20Run(raw []byte) (*Line, error) {
 	for _, m := range mutated {
 		l.B(m)
 	}
-	l.B(det).B(conc).I(idx).Int(c.Seed & 0xffffffff).I(c.Size)
+	l.B(det).B(conc).I(int(panics)).I(idx).Int(c.Seed & 0xffffffff).I(c.Size)
+	if u, _ := c20Uncomparable.Load().(string); u != "" {
+		return nil, fmt.Errorf("%s: a result cannot be canonicalised (%s): add a hand-written entry that evaluates it", call.name, u)
+	}
 	return l, nil
 }
 
-func c20Gen(tier string, rng *rand.Rand, emit func(interface{})) {
+func c20Gen(tier string, rng *rand.Rand, emit0 func(interface{})) {
+	// the number of cases emitted is printed at the very end: a run that dies half-way is
+	// recognised by the missing sentinel (bin/plugins/C20.py checks it for the -race twin)
+	emitted := 0
+	emit := func(c interface{}) { emitted++; emit0(c) }
+	defer func() { fmt.Fprintf(os.Stderr, "[C20] gen complete: %d cases\n", emitted) }()
 	// the API surface of the tree under test: one case for the scan, one per uncovered function
 	api, unc, err := c20Uncovered()
 	if os.Getenv("C20_LIST_API") != "" {
@@ -1347,10 +1483,25 @@ func c20Gen(tier string, rng *rand.Rand, emit func(interface{})) {
 				size = 5 - r // 2 and 1: the smallest inputs, special-cased paths
 			}
 			emit(c20Case{Call: c.name, Seed: rng.Int63(), Size: size, Cap: (r + 2) % 3})
+			if sp := c20SpecialFor(c.name); sp != 0 && r%3 == 1 { // the same entry on data with NaN, +-Inf, -0, extremes
+				emit(c20Case{Call: c.name, Seed: rng.Int63(), Size: size, Cap: r % 3, Sp: sp})
+			}
 			if strings.HasPrefix(c.name, "mathx.") { // scalar calls are cheap: many more parameter draws
 				for x := 0; x < 15; x++ {
 					emit(c20Case{Call: c.name, Seed: rng.Int63(), Size: size})
 				}
+			}
+		}
+		// the harness's self-test: deliberately impure / history-dependent / schedule-dependent functions
+		// defined in c20canary.go go through exactly the same pipeline; the comparator DEMANDS that they
+		// are flagged, so a harness that has gone blind in one of its stages fails the run
+		if r < 6 {
+			for _, c := range c20Canaries {
+				cc := c20Case{Call: c.name, Seed: rng.Int63(), Size: 3 + rng.Intn(30), Cap: (r + 2) % 3}
+				if c.name == "canary:nondet/process" && os.Getenv("C20_NOFRESH") == "1" {
+					continue // only the fresh-process reference can see it, and the -race twin makes none
+				}
+				emit(cc)
 			}
 		}
 	}
